@@ -383,8 +383,20 @@ class SingleMutationLines:
                 "lines": [{"k": "json", "v": c["req"]}, {"k": "json", "v": {"command": "version"}}]}
 
 
+def fuzz_seeds(tier):
+    return sorted(TEMPLATE_LINES)
+
+
+def fuzz_to_case(mode, data):
+    if mode == "raw":
+        line = bytes(data).replace(b"\n", b" ")
+        return {"v1": bool(len(line) % 7 == 0), "lines": [{"k": "raw", "b": line}]}
+    from vlib.fuzzdecode import decode
+    return decode(cases("quick"), data)
+
+
 def stages(tier):
-    from vlib.runner import EnumStage
+    from vlib.runner import EnumStage, FuzzStage
     return [
         EnumStage("single-mutations", SingleMutationLines, run_case,
                   exhaustive={"quick": True, "thorough": True},
@@ -393,4 +405,7 @@ def stages(tier):
                  budget_s={"quick": 100, "thorough": 900}),
         HypStage("tcp", lambda t: cases(t), run_tcp, {"quick": 12, "thorough": 200},
                  budget_s={"quick": 60, "thorough": 600}),
+        FuzzStage("fuzz", "C03", [("raw", False), ("raw", True), ("hyp", False), ("raw", True)],
+                  {"quick": 4000, "thorough": 50000}, run_case, fuzz_to_case, fuzz_seeds,
+                  budget_s={"quick": 45, "thorough": 600}, max_len=4096),
     ]
